@@ -1,4 +1,5 @@
 import Dassh.Gen.C04
+import Dassh.Gen.C04Gap
 import Mathlib.Algebra.Order.Field.Basic
 import Mathlib.Tactic.FieldSimp
 import Mathlib.Tactic.Ring
